@@ -118,10 +118,15 @@ def gate(name, idx):
         "not": lambda: [A.Not(A.RunAfterDate(d[min(3, len(d) - 1)]))],
         "warm": lambda: [A.RunAfterDays(4), A.RunWeekly()],
     }
+    if name == "pte":
+        # rebalance when the tracking error against fixed target weights exceeds a cap (reads
+        # target.positions before that bar's trades)
+        tw = pd.DataFrame({"a": 0.5, "b": 0.25, "d": 0.25}, index=idx)
+        return [A.Or([A.RunOnce(), A.PTE_Rebalance(0.02, tw, lookback=pd.DateOffset(days=9))])]
     return m[name]()
 
 
-GATES = ["daily", "once", "weekly", "weekly_end", "monthly", "monthly_end", "quarterly", "yearly", "ondate", "afterdate", "afterdays", "everyn", "or", "not"]
+GATES = ["daily", "once", "weekly", "weekly_end", "monthly", "monthly_end", "quarterly", "yearly", "ondate", "afterdate", "afterdays", "everyn", "or", "not", "pte"]
 CAL_GATES = ["daily", "weekly", "weekly_end", "monthly", "monthly_end", "quarterly", "yearly"]
 
 
@@ -189,8 +194,29 @@ def mod(name):
 MODS = ["none", "scale", "limitdeltas", "limitweights", "targetvol", "cash", "closedead", "oob"]
 
 
+class LazyRebalance(object):
+    """a user-written rebalancer that batches its trades with update=False and leaves the refresh
+    to the backtest loop ("need update after to save weights, values and such")"""
+
+    def __call__(self, target):
+        if "weights" not in target.temp:
+            return True
+        targets = target.temp["weights"]
+        base = target.value
+        for cname in list(target.children):
+            if cname not in targets:
+                c = target.children[cname]
+                if c.value != 0.0 and c.value == c.value:
+                    target.close(cname, update=False)
+        for k, w in targets.items():
+            target.rebalance(w, k, base=base, update=False)
+        return True
+
+
 def rebal(name):
     A = rt.bt().algos
+    if name == "lazy":
+        return [LazyRebalance()]
     if name == "rebalance":
         return [A.Rebalance()]
     if name == "overtime":
@@ -200,7 +226,7 @@ def rebal(name):
     raise KeyError(name)
 
 
-REBALS = ["rebalance", "overtime"]
+REBALS = ["rebalance", "overtime", "lazy"]
 
 BASE = {"gate": "daily", "select": "all", "weigh": "equal", "mod": "none", "rebal": "rebalance", "flow": None, "flowgate": None}
 
@@ -433,6 +459,9 @@ def stacks(tier):
             for w in WEIGHS:
                 add(select=s, weigh=w)
         add(gate="monthly", rebal="overtime")
+        add(gate="weekly", rebal="lazy", weigh="short")
+        add(gate="daily", rebal="lazy", weigh="specified")
+        add(gate="pte", select="these", weigh="specified")
         add(gate="weekly", mod="cash", weigh="short")
         add(gate="weekly", mod="limitdeltas", weigh="target")
     else:
